@@ -470,8 +470,12 @@ func c05Run(c c05Case) (fp, detail string, out string) {
 			// a body-stage check of the pipeline quarantines the message after the recipients were accepted
 			meta.Quarantine = true
 		}
-		if len(accepted) > 0 && m.Flag == "quarantine-late-atomic" {
+		if len(accepted) > 0 && (m.Flag == "quarantine-late-atomic" || m.Flag == "atomic") {
+			// "atomic": an ordinary message handed over through the all-or-nothing body path
 			err := dl.Body(ctx, hdr, buffer.MemoryBuffer{Slice: []byte("content of message " + strconv.Itoa(k) + "\r\n")})
+			if c16Hook != nil {
+				c16Hook("Body", err)
+			}
 			for _, i := range accepted {
 				results[k][i].Err = err
 				results[k][i].Sent = err == nil
